@@ -645,7 +645,7 @@ func mayWriteOldKeys(prog *ssa.Program, fn *ssa.Function) map[string]hkey {
 			return
 		}
 		if globalSpecs != nil && f.Pkg != nil {
-			if sp := globalSpecs.funcs[f.Pkg.Pkg.Path()+"::"+funcDisplay(f)]; sp != nil && sp.Assumed {
+			if sp := globalSpecs.funcs[f.Pkg.Pkg.Path()+"::"+funcDisplay(f)]; sp != nil && sp.Assumed && f != fn {
 				for _, k := range staticModKeys(prog, f, sp) {
 					res[k.id()] = k
 				}
